@@ -10,7 +10,36 @@ theorem depthGS_pos (st : Stmt) : 1 ≤ Frag.depthGS st := by
   case exprS sp e =>
     cases e <;> try (simp [Frag.depthGS]; done)
     case ifE isp ty c t el => cases el <;> simp [Frag.depthGS]
+    case matchE msp ty c arms dflt =>
+      cases dflt with
+      | none => simp [Frag.depthGS]
+      | some d => cases d <;> simp [Frag.depthGS]
   case ret sp oe => cases oe <;> simp [Frag.depthGS]
+
+/-- A property of the environment that every arm block preserves is preserved by the arms. -/
+theorem cgArmsS_env (mod fn : String) (φ : String → Option String) (loops : List (String × String)) (sp : Span)
+    (after : String) (P : CEnv → CEnv → Prop) (hrefl : ∀ e, P e e) (htrans : ∀ a b c, P a b → P b c → P a c)
+    (n : Nat) (hB : ∀ (b : Block) (env : CEnv), Frag.depthGBS b ≤ n → P env (cgBS mod fn φ loops b env).2) :
+    ∀ (arms : List (List Expr × Expr)) (nms : List String) (env : CEnv), Frag.depthGArmsS arms ≤ n →
+      P env (cgArmsS mod fn φ loops sp after arms nms env).2 := by
+  intro arms
+  induction arms with
+  | nil => intro nms env _; exact hrefl env
+  | cons a rest ih =>
+    intro nms env hd
+    obtain ⟨lits, act⟩ := a
+    cases nms with
+    | nil => cases act <;> exact hrefl env
+    | cons nm nms =>
+      cases act
+      case blockE b =>
+        simp only [Frag.depthGArmsS] at hd
+        simp only [cgArmsS]
+        exact htrans _ _ _ (hB b env (by omega)) (ih nms _ (by omega))
+      all_goals
+        simp only [Frag.depthGArmsS] at hd
+        simp only [cgArmsS]
+        exact ih nms env hd
 
 /-- A statement changes only the innermost scope level; a block restores the scopes. -/
 theorem cgS_scopes_tail (mod fn : String) (φ : String → Option String) : ∀ (n : Nat),
@@ -63,6 +92,17 @@ theorem cgS_scopes_tail (mod fn : String) (φ : String → Option String) : ∀ 
           split
           · rfl
           · split <;> rfl
+        case matchE msp ty c arms dflt =>
+          cases dflt with
+          | none => rfl
+          | some d =>
+            cases d <;> try rfl
+            rename_i db
+            simp only [Frag.depthGS] at hd
+            simp only [cgS]
+            rw [ihB loops db _ (by omega)]
+            rw [cgArmsS_env mod fn φ loops msp _ (fun e e' => e'.scopes = e.scopes) (fun _ => rfl)
+              (fun a b c h1 h2 => h2.trans h1) n (fun b env hb => ihB loops b env hb) arms _ _ (by omega)]
         case tryE tsp ty t ci c =>
           obtain ⟨csp', cty', cstmts, coe⟩ := c
           cases coe with
@@ -172,6 +212,23 @@ theorem cgS_vm_mono (mod fn : String) (φ : String → Option String) : ∀ (n :
           split
           · exact Nat.le_refl _
           · split <;> exact Nat.le_refl _
+        case matchE msp ty c arms dflt =>
+          cases dflt with
+          | none => exact Nat.le_refl _
+          | some d =>
+            cases d <;> try exact Nat.le_refl _
+            rename_i db
+            simp only [Frag.depthGS] at hd
+            simp only [cgS]
+            refine Nat.le_trans ?_ (ihB loops db _ (by omega) k)
+            have h := cgArmsS_env mod fn φ loops msp
+              (freshLabel mod (cgE mod (ρS env.scopes) φ c env.lm).2 "match_after").1
+              (fun e e' => cnt e.vm k ≤ cnt e'.vm k) (fun _ => Nat.le_refl _)
+              (fun a b c h1 h2 => Nat.le_trans h1 h2) n (fun b env hb => ihB loops b env hb k) arms
+              (armTests mod msp arms (freshLabel mod (cgE mod (ρS env.scopes) φ c env.lm).2 "match_after").2).2.1
+              { env with lm := (freshLabel mod (armTests mod msp arms (freshLabel mod
+                (cgE mod (ρS env.scopes) φ c env.lm).2 "match_after").2).2.2 "match_default").2 } (by omega)
+            exact h
         case tryE tsp ty t ci c =>
           obtain ⟨csp', cty', cstmts, coe⟩ := c
           cases coe with
